@@ -10,7 +10,7 @@
    einx's parser and through the extracted model, result class / site / positions / tree compared)
    and the regenerated literal tables below. *)
 From Coq Require Import List NArith ZArith.
-From EinxV Require Import Model.Parse Proofs.ParseGen Proofs.ParseProofs.
+From EinxV Require Import Model.Parse Proofs.ParseGen Proofs.ParseProofs Proofs.ParseSim.
 Import ListNotations.
 
 Theorem C12_tables_tied : map lit_text nary_ops = Gen.GenParseTables.gen_nary_ops.
@@ -47,6 +47,34 @@ Theorem C12_parse_arg_total_and_markers_in_text :
 Proof. exact parse_arg_good. Qed.
 Print Assumptions C12_parse_arg_total_and_markers_in_text.
 
+(* Spacing.  A redundant space where a space already separates two tokens changes nothing: for every description
+   pre ++ " " ++ post, the description with that space doubled parses to the same tree up to positions (and anonymous-axis
+   identifiers), or is rejected at the same place of the parser.  Proof (Proofs/ParseSim.v, 800 lines): the lexer's
+   look-ahead stops at a space (lex_app_space), later tokens only shift (lex_shift), the doubled space disappears in
+   de-duplication; and no stage of the parser ever looks at a position: token lists with equal kinds give related outcomes
+   through grouping, the operator parse, both move-up passes, traverse and the final checks (parse_tokens_sim).
+   Not proved (decided by the correspondence's space-insertion oracle): inserting a space where none was, next to
+   '->', ',', '+', parentheses and brackets. *)
+Theorem C12_redundant_space_changes_nothing : forall pre post : list N,
+  match parse_op (pre ++ 32%N :: 32%N :: post), parse_op (pre ++ 32%N :: post) with
+  | Ok t', Ok t => erase t' = erase t
+  | Err site' _, Err site _ => site' = site
+  | Internal site', Internal site => site' = site
+  | _, _ => False
+  end.
+Proof. exact redundant_space_same_structure. Qed.
+Print Assumptions C12_redundant_space_changes_nothing.
+
+(* Re-printing.  "Every expression einx accepts can be written back in the notation and re-read" is FALSE of the faithful
+   model, hence of the pinned tree (known finding F5): "[[a b]...]" parses, its printed form "[{a b}...]" does not. *)
+Theorem C12_reprint_refuted : exists text t,
+  parse_op text = Ok t /\ match parse_op (print t) with Ok _ => False | _ => True end.
+Proof.
+  exists [91; 91; 97; 32; 98; 93; 46; 46; 46; 93]%N.
+  eexists. split; [vm_compute; reflexivity|]. vm_compute. exact I.
+Qed.
+Print Assumptions C12_reprint_refuted.
+
 (* non-vacuity: both non-trivial outcomes occur.  "a (b + c) -> c" parses; "a ) b" is rejected
    with the marker on the stray parenthesis (position 2). *)
 Example C12_accepts_somewhere :
@@ -55,3 +83,7 @@ Proof. vm_compute. exact I. Qed.
 Example C12_rejects_somewhere :
   match parse_op [97; 32; 41; 32; 98]%N with Err _ pos => pos = [2%Z] | _ => False end.
 Proof. vm_compute. reflexivity. Qed.
+Example C12_spacing_example :
+  match parse_op [97; 32; 32; 40; 98; 32; 43; 32; 99; 41]%N, parse_op [97; 32; 40; 98; 32; 43; 32; 99; 41]%N with
+  | Ok t', Ok t => erase t' = erase t /\ t' <> t | _, _ => False end.
+Proof. vm_compute. split; [reflexivity|discriminate]. Qed.
